@@ -135,6 +135,8 @@ func extraForms() []struct {
 		{"empty binary", rh.BinaryV([]byte{})}, {"binary of 20 octets", rh.BinaryV(make([]byte, 20))}, {"binary of 1100 octets", rh.BinaryV(make([]byte, 1100))}, {"binary in chunks", rh.BinaryV(make([]byte, 70000))},
 		{"empty list", &rh.Value{K: rh.List}}, {"empty map", &rh.Value{K: rh.Map}},
 		{"typed list of strings (its type name enters the type table)", &rh.Value{K: rh.List, Typed: true, Type: "[string", Elems: []*rh.Value{rh.StringV("e1")}}},
+		{"typed list of an unregistered type", &rh.Value{K: rh.List, Typed: true, Type: "[com.example.NoSuch", Elems: []*rh.Value{rh.IntV(1), rh.StringV("two"), rh.IntV(3)}}},
+		{"typed list of an unregistered type holding an unknown-class object", &rh.Value{K: rh.List, Typed: true, Type: "[com.example.NoSuch", Elems: []*rh.Value{{K: rh.Object, Class: unknownClass, Elems: []*rh.Value{rh.IntV(5)}}}}},
 		{"typed map with a string key (its type name enters the type table)", &rh.Value{K: rh.Map, Typed: true, Type: "com.example.M2", Elems: []*rh.Value{rh.StringV("k"), rh.StringV("v")}}},
 		{"typed map", &rh.Value{K: rh.Map, Typed: true, Type: "com.example.M", Elems: []*rh.Value{rh.IntV(1), rh.StringV("v")}}},
 		{"list of 9 elements", &rh.Value{K: rh.List, Elems: []*rh.Value{rh.IntV(1), rh.IntV(2), rh.IntV(3), rh.IntV(4), rh.IntV(5), rh.IntV(6), rh.IntV(7), rh.IntV(8), rh.IntV(9)}}},
@@ -270,7 +272,7 @@ func init() {
 					for _, rev := range []bool{false, true} {
 						for pos := 0; pos <= n; pos++ {
 							for _, ev := range extraForms() {
-								for _, backref := range []bool{false, true} {
+								for _, backref := range []int{0, 1, 2} {
 									if !c.Begin() {
 										continue
 									}
@@ -297,14 +299,18 @@ func init() {
 										vals = append(vals, ev.v)
 									}
 									var pick rh.Choices
-									if backref {
+									if backref == 2 {
+										// every list in its variable-length form (the payload of the unknown field too)
+										pick = policyPick{"variable-length lists", map[string]int{"list-form": -1}}
+									}
+									if backref == 1 {
 										// later types are named by back-reference wherever the grammar allows it (also to a
 										// type name first spelled out inside the skipped value)
 										pick = policyPick{"type back-references", map[string]int{"type-backref": 1}}
 									}
 									e := rh.NewEncoder(pick)
 									e.Top(&rh.Value{K: rh.Object, Class: cls, Elems: vals})
-									desc := fmt.Sprintf("%s (reversed definition order=%v, type back-references=%v) with an unknown field holding %s at wire position %d", tname(tv), rev, backref, ev.name, pos)
+									desc := fmt.Sprintf("%s (reversed definition order=%v, policy %d of canonical / type back-references / variable-length lists) with an unknown field holding %s at wire position %d", tname(tv), rev, backref, ev.name, pos)
 									if _, err := rh.ParseOne(e.Out); err != nil {
 										c.Report(&core.Violation{Stage: "selfcheck", Kind: "harness", Shape: "R1", Message: err.Error(), Case: desc})
 										continue
@@ -463,6 +469,13 @@ func init() {
 								}
 								list.Elems = append(list.Elems, zoo.NewDenoter(nm).Denote(target))
 								wantL = append(wantL, target)
+								if p >= 1 && after >= 1 {
+									// the very same definition a second time (a writer may repeat a definition; it takes a
+									// new index like any other), then classes defined after it
+									d, w := mkDummy(0)
+									list.Elems = append(list.Elems, d)
+									wantL = append(wantL, w)
+								}
 								for i := 0; i < after; i++ {
 									d, w := mkDummy(p + 1 + i)
 									list.Elems = append(list.Elems, d)
